@@ -17,18 +17,21 @@ VARIABLES tid, l, bad, why, drift, seenDone
 tvars == <<tid, l, bad, why, drift, seenDone>>
 
 TInit == /\ tid \in 1..Len(Trace) /\ l = 0 /\ bad = 0 /\ why = "ok" /\ drift = 0 /\ seenDone = 0
-         /\ cache = Trace[tid].cache /\ ver = 1 /\ cached = 0 /\ steps = 0
-         /\ ev = [kind |-> "none", shown |-> 0, pulled |-> FALSE] /\ firstDone = 0 /\ hist = <<>>
+         /\ cache = Trace[tid].cache /\ ver = 1 /\ cached = 0 /\ whole = TRUE /\ steps = 0
+         /\ ev = NoEv /\ firstDone = 0 /\ hist = <<>>
 
 Logged == Trace[tid].events[l + 1]
 \* the spec action named by the logged event
-Act(e) == CASE e.a = "edit" -> Edit [] e.a = "full" -> FullPass [] e.a = "partial" -> PartialPass(e.k)
+Act(e) == CASE e.a = "edit" -> Edit [] e.a = "full" -> FullPass [] e.a = "partial" -> PartialPass(e.k) [] e.a = "fail" -> FailPass
+\* a pass that ran to completion (a "fail" step whose armed source failure never surfaced is one)
+Completed(e) == e.a = "full" \/ (e.a = "fail" /\ ~e.raised)
 
 \* property-level judgement of the LOGGED observation, against the logged history so far
 Judge(e) ==
-  IF e.a = "full" /\ ~cache /\ ~(e.shown = ver /\ e.pulled) THEN "NoCacheFresh"
-  ELSE IF e.a = "full" /\ cache /\ seenDone # 0 /\ ~(~e.pulled /\ e.shown = seenDone) THEN "CacheReplays"
-  ELSE IF e.a \in {"full", "partial"} /\ e.pulled /\ e.shown # 0 /\ e.shown # ver THEN "ReadsAreCurrent"
+  IF Completed(e) /\ ~cache /\ ~(e.shown = ver /\ e.pulled) THEN "NoCacheFresh"
+  ELSE IF Completed(e) /\ cache /\ seenDone # 0 /\ ~(~e.pulled /\ e.shown = seenDone) THEN "CacheReplays"
+  ELSE IF Completed(e) /\ ~e.complete THEN "PassesAreComplete"
+  ELSE IF (Completed(e) \/ e.a = "partial") /\ e.pulled /\ e.shown # 0 /\ e.shown # ver THEN "ReadsAreCurrent"
   ELSE "ok"
 
 TStep ==
@@ -38,8 +41,9 @@ TStep ==
   /\ LET j == Judge(Logged) IN
      /\ bad' = IF bad = 0 /\ j # "ok" THEN l + 1 ELSE bad
      /\ why' = IF bad = 0 /\ j # "ok" THEN j ELSE why
-  /\ seenDone' = IF Logged.a = "full" /\ seenDone = 0 THEN Logged.shown ELSE seenDone
-  /\ drift' = IF drift = 0 /\ Logged.a # "edit" /\ (ev'.pulled # Logged.pulled \/ (Logged.a = "full" /\ ev'.shown # Logged.shown))
+  /\ seenDone' = IF Completed(Logged) /\ seenDone = 0 THEN Logged.shown ELSE seenDone
+  /\ drift' = IF drift = 0 /\ Logged.a # "edit" /\ (ev'.pulled # Logged.pulled \/ (Completed(Logged) /\ ev'.shown # Logged.shown)
+                                                     \/ (Logged.a = "fail" /\ Logged.raised # (ev'.kind = "fail")))
               THEN l + 1 ELSE drift
   /\ UNCHANGED tid
 
